@@ -147,7 +147,9 @@ func coqBytes(b []byte) string {
 	}
 	var sb strings.Builder
 	name := fmt.Sprintf("b'%d", len(blobName))
-	fmt.Fprintf(&sb, "Definition %s : list N := ub %d [", name, len(b))
+	// words in chunks of 1000 (Coq's parser overflows its stack on one list literal with tens of thousands of items)
+	fmt.Fprintf(&sb, "Definition %s : list N := ub %d (concat [[", name, len(b))
+	nw := 0
 	for i := 0; i < len(b); i += 7 {
 		var w uint64
 		for j := 0; j < 7; j++ {
@@ -156,12 +158,15 @@ func coqBytes(b []byte) string {
 				w |= uint64(b[i+j])
 			}
 		}
-		if i > 0 {
+		if nw > 0 && nw%1000 == 0 {
+			sb.WriteString("];\n [")
+		} else if nw > 0 {
 			sb.WriteByte(';')
 		}
 		fmt.Fprintf(&sb, "%d", w)
+		nw++
 	}
-	sb.WriteString("]%uint63.")
+	sb.WriteString("]]%uint63).")
 	curRun.Imports = append(curRun.Imports, sb.String())
 	blobName[string(b)] = name
 	return name
@@ -454,7 +459,9 @@ func runChain(t *testing.T, run *vh.Run, r *vh.Rand, c *Case, exhaustiveLimit in
 		if ferr == nil {
 			finalCanon, lerr = loadFile(store, snapf)
 		}
-		if lerr != nil {
+		if ferr != nil {
+			run.Violate("snapshot-file-missing", fmt.Sprintf("%s: no snapshot file after the shutdown maintenance: %v", target, ferr), one)
+		} else if lerr != nil {
 			run.Violate("own-snapshot-refused", fmt.Sprintf("%s: the snapshot written at shutdown cannot be loaded: %v", target, lerr), one)
 		} else if finalCanon != newCanon {
 			run.Violate("snapshot-not-lossless", fmt.Sprintf("%s: loading the shutdown snapshot does not reproduce the in-memory state", target), one)
@@ -577,13 +584,13 @@ func TestCheck(t *testing.T) {
 			{storeNflog, []int{0, 1, 2}, -1, false},
 			{storeNflog, []int{1, 0, 1}, 2, false},
 			{storeNflog, []int{3}, 0, true},
-			{storeNflog, []int{25, 3}, 1, false},
+			{storeNflog, []int{12, 2}, 1, false},
 			{storeSilence, []int{0, 1, 2}, -1, false},
 			{storeSilence, []int{1, 1}, 2, false},
 			{storeSilence, []int{2}, 1, true},
-			{storeSilence, []int{20, 2}, 3, false},
+			{storeSilence, []int{10, 2}, 3, false},
 		}
-		extra := env.N(2, 6)
+		extra := env.N(1, 10)
 		for i := 0; i < extra; i++ {
 			chains = append(chains, chainSpec{r.Intn(2), []int{r.Intn(4), r.Intn(3)}, r.Intn(4) - 1, r.Chance(1, 3)})
 		}
@@ -598,9 +605,7 @@ func TestCheck(t *testing.T) {
 		}
 		// codec differential and prefix/corruption classes
 		codecAll(t, run, r.Fork(), env)
-		// records over the 4 MiB framing limit (known finding)
-		oversizeCase(run, &Case{Kind: "oversize", Store: storeSilence})
-		oversizeCase(run, &Case{Kind: "oversize", Store: storeNflog})
+		// records over the 4 MiB framing limit (known finding): corpus/C11/oversize-*.json, run first on every run
 	}
 	if err := run.Finish("E-fs: strace of the real Maintenance shutdown snapshot (both stores, chains of restarts in one data dir, initial files in the old format) compared with snapshot_ops; every crash image of the recorded sequence (exhaustive up to 400 un-synced bytes, sampled beyond) loaded by the real New; codec differential Wire.v vs protobuf-go on real Snapshot output and on generated records; every strict prefix and sampled 1-byte corruptions through the real loader. non-trivial = COps, CCrash with > 3 points, codec cases with >= 1 record"); err != nil {
 		t.Fatal(err)
